@@ -305,7 +305,12 @@ func (s *syncRun) deliver(kind string, h uint64, via string) {
 		s.placed[evKey(kind, h)] = true
 		s.onP2P[evKey(kind, h)] = true
 		s.p2pCount++
-		faulted := false
+		// a failure armed earlier that the node never ran into (its cursor was already past that item) hits the
+		// read of this item: the node retries on its next tick, so time has to pass here as well
+		faulted := (kind == "hdr" && s.full.HStore.Armed()) || (kind == "data" && s.full.DStore.Armed())
+		if faulted {
+			s.c.Tr.Emit("P2PReadFault", world.F{"node": "full", "kind": kind, "h": int(h), "stale": true})
+		}
 		if s.p2pFaultEvery > 0 && s.p2pCount%s.p2pFaultEvery == 0 {
 			faulted = true
 			// the node's first read of the store for this item fails once; the item stays in the store
@@ -388,6 +393,10 @@ func (s *syncRun) settle() {
 			}
 			s.deliver(kind, h, "da")
 		}
+	}
+	if !s.isDown() {
+		// the polling signals that the node's own tickers would send as time passes
+		s.c.Tr.Emit("Signal", world.F{"node": "full", "what": "all"})
 	}
 	for round := 0; round < 3 && !s.isDown(); round++ {
 		m := s.full.M
